@@ -45,6 +45,9 @@ def soft_restart():
     """
     name = provider_name()
     tzp().use(name)
+    # a new process starts with an empty zone cache whatever the library's own reset logic does
+    if hasattr(tzp(), "_TZP__tz_cache"):
+        tzp()._TZP__tz_cache = {}
     try:
         import zoneinfo
         zoneinfo.ZoneInfo.clear_cache()
